@@ -202,6 +202,8 @@ fn lock_case(seed: u64, lean: &mut Lean, hist: &mut std::collections::BTreeMap<S
                 let Some(h) = handles.first() else { continue; };
                 let db: Database = match h { Handle::Db(d) => d.clone(), Handle::Tx(t) => t.inner().clone(), Handle::Ks(_) => continue };
                 let ks = db.keyspace("a", KeyspaceCreateOptions::default).unwrap();
+                // nobody flushes here (no worker threads): with four sealed memtables a writer would halt for good
+                if ks.sealed_memtable_count() >= 3 { continue; }
                 ks.insert(format!("w{}", r.below(100)), "v").unwrap();
                 if r.chance(2, 3) { fjall::verif::verif_rotate_journal(&db).unwrap(); *hist.entry("pending:sealed-journal".into()).or_insert(0) += 1; }
                 if r.chance(1, 2) { let _ = ks.rotate_memtable(); *hist.entry("pending:flush-task".into()).or_insert(0) += 1; }
